@@ -153,6 +153,10 @@ HISTORIES = (
      [('SUB:n:G', 'a', {}), ('G', 'b', {})]),
     ('emits nobody listens to leave nothing behind',
      [('emit', 'n', 'a'), ('emit', 'm', 'b'), ('on', 'n', 'F', None), ('emit', 'm', 'c'), ('emit', 'n', 'd')], [('F', 'd', {})]),
+    ('off(name, callback) keeps the others in subscription order, once-listeners among them',
+     [('once', 'n', 'F', None), ('on', 'n', 'G', None), ('once', 'n', 'H', None), ('on', 'n', 'T', None), ('on', 'n', 'K', None), ('off', 'n', 'T'),
+      ('emit', 'n', 'a'), ('emit', 'n', 'b')],
+     [('F', 'a', {}), ('G', 'a', {}), ('H', 'a', {}), ('K', 'a', {}), ('G', 'b', {}), ('K', 'b', {})]),
     ('once-listener removing the name while it runs', [('once', 'n', 'OFFSELF:n', None), ('on', 'n', 'G', None), ('emit', 'n', 'a'), ('emit', 'n', 'b')],
      [('OFFSELF:n', 'a', {}), ('G', 'a', {})]),
 )
